@@ -8,6 +8,7 @@ import (
 	"encoding/json"
 	"fmt"
 	"os"
+	"runtime/pprof"
 
 	"verifharness/checks/c13"
 	"verifharness/lib"
@@ -33,9 +34,20 @@ func main() {
 			os.Exit(2)
 		}
 		c13.Replay(r, f.Replay)
-		// a replay must not overwrite the evidence of the real run: print the verdict and stop here
+		// a replay must not overwrite the evidence of the real run: the verdict was printed, stop here
+		if c13.ReplayViolated {
+			os.Exit(1)
+		}
 		return
 	}
-	c13.Run(r)
+	if pf := os.Getenv("C13_CPUPROFILE"); pf != "" {
+		f, _ := os.Create(pf)
+		_ = pprof.StartCPUProfile(f)
+		c13.Run(r)
+		pprof.StopCPUProfile()
+		f.Close()
+	} else {
+		c13.Run(r)
+	}
 	r.Finish()
 }
